@@ -34,6 +34,7 @@ def fresh(prefix='t'):
 
 
 ZERO = Term('0')
+WIDEN_THRESHOLDS = (-2, -1, 0, 1, 2)
 INF = None
 
 
@@ -234,8 +235,16 @@ class Zone:
         for (x, y), c in self.d.items():
             if x in z.vars and y in z.vars:
                 o = newer.d.get((x, y))
-                if o is not None and o <= c:
+                if o is None:
+                    continue
+                if o <= c:
                     z.d[(x, y)] = c
+                else:
+                    # unstable bound: relax to the next threshold instead of dropping it
+                    for t in WIDEN_THRESHOLDS:
+                        if t >= o:
+                            z.d[(x, y)] = t
+                            break
         return z
 
     def leq(self, other):
